@@ -27,7 +27,7 @@ ASSUMPTIONS = [
     "myokit's SBML importer naming convention (c.s_amount, c.size, global.p)"]
 REQUIRED = ['gen', 'lib:pk', 'lib:koch', 'lib:koch_r', 'lib:erlotinib', 'sens', 'reduced', 'renamed', 'tied_times',
             'intermediate_output', 'order_differs', 'model_order_differs', 'derived_const', 'refix', 'refix:same_count',
-            'admin:indirect', 'rename_then_admin']
+            'admin:indirect', 'rename_then_admin', 'dosed:sens']
 LIBS = ['pk', 'koch', 'koch_r', 'erlotinib']
 
 
@@ -60,6 +60,12 @@ def _spec(draw):
         # an absorption rate in the middle of the published parameter order
         admin = dict(comp=draw(st.integers(0, len(ms['comps']) - 1)), direct=gen.chance(draw, 0.4),
                      rename_first=draw(st.booleans()))
+        if gen.chance(draw, 0.6):
+            # a dosing regimen: the initial-value problem then has a scheduled input, which every later
+            # (re-)configuration of the sensitivities has to keep
+            admin['reg'] = dict(dose=draw(gen.logu(0.5, 5.0)), start=draw(gen.logu(0.05, 1.0)),
+                                duration=draw(gen.logu(0.02, 0.3)), period=draw(gen.logu(0.5, 2.0)),
+                                num=draw(st.integers(1, 3)))
     names = sbmlgen.published_parameters(ms, admin)
     theta = gen.distinct(draw(gen.vec(gen.logu(0.1, 3.0), len(names))))
     cands = sbmlgen.state_qnames(ms) + sbmlgen.intermediate_qnames(ms)
@@ -113,6 +119,10 @@ def classify(spec):
             labs.append('refix')
         if spec.get('admin'):
             labs.append('admin:' + ('direct' if spec['admin']['direct'] else 'indirect'))
+            if spec['admin'].get('reg'):
+                labs.append('dosed')
+                if spec['sens']:
+                    labs.append('dosed:sens')
             if spec['rename'] and spec['admin']['rename_first']:
                 labs.append('rename_then_admin')
         if ms['derived']:
@@ -250,6 +260,7 @@ def check(case):
 
     ms = s['ms']
     admin = s.get('admin')
+    events = None
     with case.clause('construct'):
         M = sbmlgen.build(ms, chi.PKPDModel) if admin else sbmlgen.build(ms)
         mo = sbmlgen.model_state_order(ms)
@@ -274,6 +285,12 @@ def check(case):
                 M.set_parameter_names(pmap_first)
             comp = ms['comps'][admin['comp']]
             M.set_administration(comp['id'], amount_var='%s_amount' % comp['sid'], direct=admin['direct'])
+            if admin.get('reg'):
+                r = admin['reg']
+                M.set_dosing_regimen(dose=r['dose'], start=r['start'], duration=r['duration'], period=r['period'],
+                                     num=r['num'])
+                events = sbmlgen.regimen_events(r['dose'], r['start'], r['duration'], r['period'], r['num'],
+                                                float(times[-1]) + 1.0)
             names = sbmlgen.published_parameters(ms, admin)
             case.equal(M.parameters(), [pmap_first.get(n, n) for n in names],
                        'published parameters after set_administration (names assigned before are kept)')
@@ -325,7 +342,7 @@ def check(case):
             z[i] = z_free[k]
         return z
 
-    want = np.real(sbmlgen.ref_simulate(ms, theta, times, outputs, admin))
+    want = np.real(sbmlgen.ref_simulate(ms, theta, times, outputs, admin, events))
     with case.clause('simulate'):
         got = np.asarray(obj.simulate(theta[free].copy(), times.copy()), dtype=float)
         case.equal(got.shape, (len(outputs), len(times)), 'output shape', kind='shape')
@@ -339,7 +356,7 @@ def check(case):
             sens = np.asarray(sens, dtype=float)
             case.equal(sens.shape, (len(times), len(outputs), len(free)), 'sensitivity shape', kind='shape')
             case.close(out, want, rtol=1e-6, atol=1e-9, what='outputs returned with sensitivities')
-            ws = _cgrad_outputs(lambda z: sbmlgen.ref_simulate(ms, full(z), times, outputs, admin), theta[free])
+            ws = _cgrad_outputs(lambda z: sbmlgen.ref_simulate(ms, full(z), times, outputs, admin, events), theta[free])
             case.close(sens, ws, rtol=1e-5, atol=1e-8,
                        what='d output / d (free) parameter, columns in published order')
             if not s.get('refix'):
@@ -357,7 +374,7 @@ def check(case):
             out, sens = M.simulate(theta.copy(), times.copy())
             sens = np.asarray(sens, dtype=float)
             case.equal(sens.shape, (len(times), len(outputs), len(idx)), 'sensitivity shape for a subset', kind='shape')
-            ws = _cgrad_outputs(lambda z: sbmlgen.ref_simulate(ms, z, times, outputs, admin), theta)
+            ws = _cgrad_outputs(lambda z: sbmlgen.ref_simulate(ms, z, times, outputs, admin, events), theta)
             case.close(sens, ws[:, :, idx], rtol=1e-5, atol=1e-8,
                        what='d output / d parameter for the subset %r (requested as %r), columns in model order' % (
                            [pub_names[i] for i in idx], req))
@@ -384,7 +401,7 @@ def check(case):
                 sens = np.asarray(sens, dtype=float)
                 case.equal(sens.shape, (len(times), len(outputs), len(free)), 'sensitivity shape after the second '
                                                                              'fix_parameters call', kind='shape')
-                ws = _cgrad_outputs(lambda z: sbmlgen.ref_simulate(ms, full(z), times, outputs, admin), theta[free])
+                ws = _cgrad_outputs(lambda z: sbmlgen.ref_simulate(ms, full(z), times, outputs, admin, events), theta[free])
                 case.close(sens, ws, rtol=1e-5, atol=1e-8, what='d output / d (free) parameter after releasing %s '
                            'and fixing %s in one call' % ([pub_names[i] for i in rf['release']],
                                                           [pub_names[i] for i in rf['fix']]))
@@ -403,5 +420,5 @@ def check(case):
             ref_th = theta.copy()
             ref_th[free] = th[free]
             case.close(np.asarray(out, dtype=float),
-                       np.real(sbmlgen.ref_simulate(ms, ref_th, times, outputs, admin)), rtol=1e-6, atol=1e-9,
+                       np.real(sbmlgen.ref_simulate(ms, ref_th, times, outputs, admin, events)), rtol=1e-6, atol=1e-9,
                        what='outputs of a copy taken after simulating (parameters x %.1f)' % f)
